@@ -117,8 +117,11 @@ CHECKS = {
               'run: segment-reference-reuse (8-bit reference wraps while the earlier message is still in the status store: '
               'outcome attributed to the other log_id) and wrong-type-response-consumes-request. NOT yet a theorem: the '
               'history-level exactly-once ledger over arbitrary interleavings of segmented messages (covered by the '
-              'correspondence + ledger predicate on generated histories only) and the session-level interleavings '
-              '(hooks suspending inside put, connection loss mid-send).'),
+              'correspondence + ledger predicate on generated histories only). Session level (no theorem): the real ESME.start() on a '
+              'virtual-time loop with a scripted SMSC (accept / reject / throttle / nack / silence / late), suspending hooks, back-pressure and '
+              'dropped connections is judged by the ledger predicate (exactly one outcome per queued message, every response attributed, '
+              'time-outs neither early nor late); it found the repaired defects 0eac14c, 829a54d, c79eab3 and two further known findings: '
+              'response-overtakes-put and sender-cancelled-mid-message.'),
         note=COMMON_NOTE + 'Each correlator operation and each _handle_response run is atomic at this tier. log_id values are assumed distinct per message when judging attribution.',
         technique='Lean 4 theorems (single-step refinement lemmas, max-aggregation law, kernel-checked counter-examples for the excluded classes); differential correspondence through the real handler with a ledger predicate'),
     'C02': dict(
@@ -131,7 +134,9 @@ CHECKS = {
               'error code ranks below SENT). The order-independence over ALL arrival orders of receipts and remaining '
               'responses is covered by the correspondence + attribution predicate on generated histories (receipts before '
               'sibling responses, TLV id, duplicates, unknown ids) and by finite kernel-checked tests, not yet by an '
-              'unbounded theorem. Reference reuse is the known finding recorded under C01.'),
+              'unbounded theorem. Session level (no theorem): real sessions with a scripted SMSC that accepts messages and sends receipts '
+              '(prompt, delayed, with error codes, id in the TLV only, between sibling responses, unknown ids, duplicates) are judged by '
+              'the attribution predicate. Reference reuse is the known finding recorded under C01.'),
         note=COMMON_NOTE + 'Atomic handlers; receipt text parsing is C20 and PDU decoding C03/C04; segmentation references assumed unique among live messages.',
         technique='Lean 4 theorems (single-step refinement lemmas, max-aggregation law); differential correspondence through the real handlers with an attribution predicate'),
     'C03': dict(
